@@ -1159,6 +1159,19 @@ def exponent_not_min(F, fn, bb):
     return False, "exponent %s is not provably != i32::MIN" % txt[:100]
 
 
+def _symbol_invariant(F, s, e):
+    """Every symbol in substance_symbols names a registered substance: the C16 rule, evaluated here as a backing."""
+    import core
+    import c16
+    tmp = core.Check("C16")
+    try:
+        c16.symbol_invariant(tmp, F)
+    except AnchorLost as ex:
+        return False, "symbol invariant could not be evaluated: %s" % ex
+    bad = [i for i in tmp.instances if i["verdict"] != "ok"]
+    return (not bad and bool(tmp.instances)), ("substance_symbols is only written after the substance itself was inserted (%d checks)" % len(tmp.instances) if not bad else bad[0]["detail"])
+
+
 def _operands_reset_to_one(F, s, e):
     """conformance_err: every Number operand of its Mul/Div calls borrows a local whose value was reset to Numeric::one()."""
     fn = F.find(CORE, "runtime::eval::conformance_err")
@@ -1173,6 +1186,7 @@ def _operands_reset_to_one(F, s, e):
 
 
 BACKING = {
+    "symbol_invariant": _symbol_invariant,
     "operands_reset_to_one": _operands_reset_to_one,
     "exponent_bound_gates": _exponent_bound_gates,
     "numeric_pow_callers": _numeric_pow_callers,
@@ -1325,3 +1339,175 @@ def inventory_lines(F):
             l = s.term["loc"]
             inv.sites.setdefault(l["file"], []).append((l["line"], l.get("eline", l["line"]), s.what))
     return inv
+
+
+# =========================================================================================
+# T1: every loop of the lexers / parsers makes progress (consumes input) on every iteration
+# =========================================================================================
+PARSER_FILES = ("core/src/parsing/text_query.rs", "core/src/loader/gnu_units.rs", "core/src/parsing/formula.rs", "core/src/parsing/datetime.rs")
+CONSUMING = ("next", "next_if", "next_if_eq", "nth", "next_back", "advance_by")
+CHAR_IMPLIES = {("is_alphabetic", "is_alphanumeric"), ("is_numeric", "is_alphanumeric"), ("is_ascii_digit", "is_ascii_alphanumeric"),
+                ("is_ascii_alphabetic", "is_ascii_alphanumeric"), ("is_ascii_alphabetic", "is_alphabetic"), ("is_ascii_alphanumeric", "is_alphanumeric"),
+                ("is_ascii_digit", "is_numeric"), ("is_ascii_digit", "is_alphanumeric"), ("is_ascii_alphabetic", "is_alphanumeric"),
+                ("is_ascii_whitespace", "is_whitespace"), ("is_ascii_uppercase", "is_alphabetic"), ("is_ascii_lowercase", "is_alphabetic"),
+                ("is_uppercase", "is_alphabetic"), ("is_lowercase", "is_alphabetic")}
+
+
+def _has_cycle(nodes, succ):
+    color = {}
+    stack_guard = [False]
+
+    def dfs(u):
+        st = [(u, iter(succ(u)))]
+        color[u] = 1
+        while st:
+            node, it = st[-1]
+            adv = False
+            for v in it:
+                if v not in nodes:
+                    continue
+                if color.get(v) == 1:
+                    stack_guard[0] = True
+                    return
+                if v not in color:
+                    color[v] = 1
+                    st.append((v, iter(succ(v))))
+                    adv = True
+                    break
+            if not adv:
+                color[node] = 2
+                st.pop()
+    for n in nodes:
+        if n not in color:
+            dfs(n)
+            if stack_guard[0]:
+                return True
+    return False
+
+
+def must_advance(F, fns):
+    """Fixed point: functions in which every entry -> return path performs a consuming call on an iterator or calls a
+    function already known to advance."""
+    adv = set()
+    changed = True
+
+    def progress_blocks(fn):
+        out = set()
+        for bb, t in fn.calls():
+            if "callee" not in t:
+                continue
+            c = t["callee"]
+            if c["path"].split("::")[-1] in CONSUMING and ("Iterator" in c["path"] or "Peekable" in c["path"] or "Chars" in c["path"]):
+                out.add(bb)
+            elif c["id"] in adv:
+                out.add(bb)
+        return out
+    while changed:
+        changed = False
+        for fn in fns:
+            if fn.id in adv:
+                continue
+            pb = progress_blocks(fn)
+            if not pb:
+                continue
+            reach = fn.reachable(0, cut_blocks=pb)
+            rets = [i for i, b in enumerate(fn.blocks) if b["term"]["k"] == "return" and not b["cleanup"]]
+            if rets and not any(r in reach for r in rets):
+                adv.add(fn.id)
+                changed = True
+    return adv, progress_blocks
+
+
+def char_predicate(F, fn, ap):
+    """Name of the char predicate a boolean test applies to the peeked character, or None.  Looks through a closure
+    handed to Option::map (`peek().map(|c| c.is_whitespace()).unwrap_or(false)`)."""
+    import re
+    txt = ap_str(ap)
+    m = re.search(r"char::methods::<impl char>::(is_[a-z_]+)\(", txt)
+    if m and "peek(" in txt:
+        return m.group(1)
+    for cp in re.findall(r"closure:([^{]+(?:\{closure#\d+\})+)", txt):
+        if "peek(" not in txt:
+            continue
+        for c in F.closures_of(fn):
+            if c.path == cp:
+                preds = [t["callee"]["path"].split("::")[-1] for _, t in c.calls() if "callee" in t and "impl char>::is_" in t["callee"]["path"]]
+                if len(preds) == 1:
+                    return preds[0]
+    return None
+
+
+def loop_progress(chk, F, reach, rule="loop-progress"):
+    fns = [F.fns[fid] for fid in reach if F.fns[fid].crate == CORE and F.fns[fid].file in PARSER_FILES and not F.fns[fid].raw.get("from_expansion")]
+    allp = [f for f in F.by_crate[CORE] if f.file in PARSER_FILES]
+    adv, progress_blocks = must_advance(F, allp)
+    n = 0
+    for fn in sorted(fns, key=lambda f: f.path):
+        pb = progress_blocks(fn)
+        for comp in sccs(fn):
+            comp = set(comp)
+            if len(comp) < 2 and not any(t in comp for b in comp for _, t in fn.succs(b)):
+                continue
+            n += 1
+            fk = "rink_core::" + normfn(fn.path)
+            own = [b for b in comp if fn.blocks[b]["term"]["loc"].get("file") == fn.file] or list(comp)
+            where = fn.where(min(own, key=lambda b: fn.blocks[b]["term"]["loc"]["line"]))
+            rest = comp - pb
+            edges = {b: [(lab, t) for lab, t in fn.succs(b) if t in rest] for b in rest}
+            if not _has_cycle(rest, lambda u: [t for _, t in edges[u]]):
+                chk.ok(rule, fk, "loop", where, "every cycle of the loop contains a consuming call (%d of %d blocks consume or call an advancing parser)" % (len(comp & pb), len(comp)))
+                continue
+            # infeasible first-iteration exits: a test P2(peeked char) taken false that is only reachable (without
+            # consuming) through the true edge of a test P1(peeked char) with P1 => P2
+            tests = {}
+            for s, kind, ap, info in k2.switch_tests(fn):
+                if s not in rest:
+                    continue
+                if kind == "bool":
+                    ap2, flip = k2.peel_not(ap)
+                    p = char_predicate(F, fn, ap2)
+                    if not p and ap2[0][0] == "call" and ap2[0][1].endswith(("Option::<T>::is_some", "Option::<T>::is_none")) and "peek(" in ap_str(ap2):
+                        p = "some"
+                        if ap2[0][1].endswith("is_none"):
+                            flip = not flip
+                    if p:
+                        names = k2.edge_names(fn, s, "bool", info)
+                        tests[s] = (p, [t for _, t, nm in names if (nm == "true") != flip], [t for _, t, nm in names if (nm == "false") != flip])
+                elif kind == "variant" and "peek(" in ap_str(ap) and "Option" in str(info.get("dty", "")) + ap_str(ap):
+                    names = k2.edge_names(fn, s, "variant", info)
+                    some = [t for _, t, nm in names if nm == "Some"]
+                    none = [t for _, t, nm in names if nm == "None"]
+                    if some and none:
+                        tests[s] = ("some", some, none)
+            header = min(comp)
+            removed = []
+            for s2, (p2, true2, false2) in tests.items():
+                for s1, (p1, true1, false1) in tests.items():
+                    if s1 == s2 or not (p1 == p2 or p2 == "some" or (p1, p2) in CHAR_IMPLIES):
+                        continue
+                    # cut the true edge of s1: is s2 still reachable from the loop header inside the non-progress graph?
+                    cut = {(s1, t) for t in true1}
+                    seen = set()
+                    st = [header] if header in rest else list(rest)[:1]
+                    while st:
+                        u = st.pop()
+                        if u in seen:
+                            continue
+                        seen.add(u)
+                        for _, v in edges.get(u, ()):
+                            if (u, v) not in cut:
+                                st.append(v)
+                    if s2 not in seen:
+                        removed += [(s2, t, p1, p2) for t in false2]
+            cutset = {(a, b) for a, b, _, _ in removed}
+            if removed and not _has_cycle(rest, lambda u: [t for _, t in edges[u] if (u, t) not in cutset]):
+                chk.ok(rule, fk, "loop", where, "the only cycles without a consuming call leave an inner scan loop on its first test, which cannot fail: %s" % sorted(set(
+                    "%s(c) holds on entry and implies %s(c)" % (p1, p2) for _, _, p1, p2 in removed)))
+                continue
+            chk.finding(rule, fk, "loop", where,
+                        "the loop at %s has a cycle on which nothing is consumed from the input (no iterator next(), no call of a parser that always "
+                        "advances%s): on such input it spins forever (and grows its output)" % (
+                            where, "; tests on the peeked character inside the loop: %s" % sorted(set(v[0] for v in tests.values())) if tests else ""))
+    chk.extra.setdefault("loop_progress", {})[rule] = {"loops": n, "advancing_functions": sorted(F.fns[i].path for i in adv)[:40]}
+    if n < 10:
+        chk.anchor_lost(rule, "parsers", "only %d loops found in the lexer/parser files (expected >= 10)" % n)
